@@ -599,6 +599,7 @@ func (fr *Frame) havocLoopMods(li *loopInfo) {
 		vc.note(fmt.Sprintf("%s loop %d: body calls a function without frame; all heaps havocked", fr.fn.Name(), li.ordinal))
 		return
 	}
+	fr.cur.Havoc("clk", SInt) // earlier iterations may have allocated
 	for _, h := range sortedKeys(heaps) {
 		fr.cur.Havoc(h, heaps[h])
 	}
@@ -732,7 +733,7 @@ func (fr *Frame) opaquePtr(l *Loc) Term {
 			k := te.subTag()
 			inv := smtName("invptr_" + fn)
 			te.pre.Add("fn:"+inv, fmt.Sprintf("(declare-fun %s (Int) Int)", inv))
-			te.pre.Add("ax:"+fn, fmt.Sprintf("(assert (forall ((p Int)) (! (and (= (%s (%s p)) p) (= (subtag (%s p)) %d) (not (= (%s p) 0))) :pattern ((%s p)))))", inv, fn, fn, k, fn, fn))
+			te.pre.Add("ax:"+fn, fmt.Sprintf("(assert (forall ((p Int)) (! (and (= (%s (%s p)) p) (= (subtag (%s p)) %d) (not (= (%s p) 0)) (= (atime (%s p)) (atime p))) :pattern ((%s p)))))", inv, fn, fn, k, fn, fn, fn))
 		}
 		return Term{app(fn, l.Base.S), SInt}
 	case "elem":
